@@ -1,6 +1,6 @@
 (* Protocol entry point of the extracted model: one command + hex arguments in, one JSON line out. *)
 From Coq Require Import String Ascii List ZArith NArith Bool.
-From SDP Require Import Base PyStr Regex Json Codec LR RealTables Lexer Actions Parse Engine Seq Output.
+From SDP Require Import Base PyStr Regex Json Codec LR RealTables Lexer Actions Parse Engine Seq Output Pre Api.
 Import ListNotations.
 Open Scope string_scope.
 
@@ -47,6 +47,11 @@ Definition dispatch (cmd : string) (args : list string) : string :=
       | Some (PList flat) => json_of_res json_of_pyval (Output.group_by_type_result flat)
       | _ => JObj [("unsupported", JStr "bad flat list encoding")]
       end
+  | "statements", [data] => json_of_res (fun l => JArr (map json_of_pyval l)) (statements_of data)
+  | "preprocess", [data] => json_of_res JStr (pre_process_data data)
+  | "run", [norm; silent; mode; group; js; data] =>
+      json_of_res json_of_pyval
+        (Api.run (String.eqb norm "1") (String.eqb silent "1") mode (String.eqb group "1") (String.eqb js "1") data)
   | "seq_spec", norm :: rest =>
       match seq_of_args rest with
       | None => JObj [("unsupported", JStr "bad seq args")]
